@@ -8,6 +8,7 @@ export CARGO_NET_OFFLINE=true
 (cd harness && cargo build --offline --release -p rtprops 2>&1 | tail -1)
 # the runtime harness against the library's other configuration (no `std` feature, trace logging)
 (cd harness && cargo build --offline --release -p rtprops --no-default-features --features altcfg --target-dir /verif/target/alt 2>&1 | tail -1)
+(cd harness && cargo build --offline --release -p rtprops --no-default-features --features altcfg-std --target-dir /verif/target/alt-std 2>&1 | tail -1)
 (cd /repo && CARGO_TARGET_DIR=/verif/target/bindgen cargo build --offline -p cglue-bindgen 2>&1 | tail -1)
 # warm-up: one pass over the checks that compile generated crates (results are discarded here)
 for p in C01 C03 C05 C08 C09 C17 C20; do
